@@ -156,6 +156,9 @@ pub struct SchedStats {
     /// `fresh_wakers` runs: wake-ups through the waker of an earlier root poll (ignored).
     #[serde(default)]
     pub stale_wakes: u64,
+    /// tracing runs with `Plan.late_logs`: logs emitted by the helper that outlives a callback.
+    #[serde(default)]
+    pub late_logs: u64,
 }
 
 struct TimerEntry {
